@@ -193,3 +193,9 @@ package z
 //@   ensures [C11] #end offset >= int(b.offset) ==> len(result0) == 0 && result1 == -1
 //@   ensures [C11] #slice offset < int(b.offset) ==> gcSliceAt(result0, b.buf, offset+8) && len(result0) == int(GcBE64(b, offset))
 //@   ensures [C11] #next offset < int(b.offset) ==> result1 == ite(offset+8+int(GcBE64(b, offset)) >= int(b.offset), -1, offset+8+int(GcBE64(b, offset)))
+
+// histogram.go: life-expectancy statistics only; no listed property depends on them.
+//@ func HistogramBounds(minExponent, maxExponent uint32) []float64
+//@   trusted statistics helper outside every property
+//@ func NewHistogramData(bounds []float64) *HistogramData
+//@   trusted statistics helper outside every property
